@@ -41,6 +41,9 @@ pub struct State {
     pub mprotect_fail: usize,
     /// snapshot flushed bytes (only sensible when the range is readable)
     pub snap_flush: bool,
+    /// a W^X policy: requests for memory that is writable and executable at once are refused with
+    /// EACCES; everything else is served
+    pub deny_wx: bool,
 }
 
 pub static STATE: Mutex<State> = Mutex::new(State {
@@ -51,6 +54,7 @@ pub static STATE: Mutex<State> = Mutex::new(State {
     protect_foreign: true,
     mprotect_fail: 0,
     snap_flush: true,
+    deny_wx: false,
 });
 
 fn st() -> std::sync::MutexGuard<'static, State> {
@@ -83,6 +87,10 @@ pub fn script_left() -> usize {
 pub fn owned() -> Vec<(usize, usize)> {
     st().owned.clone()
 }
+pub fn deny_wx(on: bool) {
+    st().deny_wx = on;
+}
+
 pub fn fail_next_mprotects(n: usize) {
     st().mprotect_fail = n;
 }
@@ -137,6 +145,9 @@ pub unsafe fn mprotect(addr: *mut c_void, len: size_t, prot: c_int) -> c_int {
         let mut s = st();
         if s.mprotect_fail > 0 {
             s.mprotect_fail -= 1;
+            true
+        } else if s.deny_wx && (prot & real_libc::PROT_WRITE) != 0 && (prot & real_libc::PROT_EXEC) != 0 {
+            *real_libc::__errno_location() = real_libc::EACCES;
             true
         } else {
             false
